@@ -337,6 +337,24 @@ func (c *Case) Op(kind string, fieldVals []string, out *vh.Out) string {
 			}
 		}
 	}
+	// names the code may ask that have no zone: NXDOMAIN, said explicitly
+	for _, ft := range ftoks {
+		for _, tok := range strings.Fields(ft)[1:] {
+			if !(strings.HasPrefix(tok, "=") || strings.HasPrefix(tok, "~")) {
+				continue
+			}
+			names := []string{strings.ToLower(Untok(tok))}
+			if e, err := publicsuffix.EffectiveTLDPlusOne(names[0]); err == nil {
+				names = append(names, e)
+			}
+			for _, n := range names {
+				if _, ok := c.Zones[n]; !ok {
+					c.Zones[n] = Zone{Kind: "nx"}
+					c.Names = append(c.Names, n)
+				}
+			}
+		}
+	}
 	for _, n := range c.Names {
 		z := c.Zones[n]
 		s := "D " + Tok(n) + " " + z.Kind
